@@ -205,6 +205,10 @@ def scripted_histories():
         out.append([["fresh", 1, "mks"], ["fresh", 1, "mks"], ["mixed", 1, 1, form, "m", "s"], ["mixed", 2, 2, form, "m", "s"],
                     ["mixed", 1, 2, form, "km", "g"], ["mixed", 2, 1, form, "km", "g"], ["mixed", 0, 1, form, "pc", "s"],
                     ["mixed", 1, 0, form, "pc", "s"]])
+    # the right operand's symbol is unknown to the left operand's registry
+    for form in MIXED_FORMS:
+        out.append([["fresh", 1, "mks"], ["op", 1, "add", "zot", 3.0, "time", 0.0, 1], ["mixed", 0, 1, form, "km", "zot"],
+                    ["fresh", 1, "mks"], ["mixed", 2, 1, form, "pc", "zot"], ["mixed", 1, 2, form, "zot", "pc"]])
     out.append([["fresh", 1, "cgs"], ["newsys", 1, "c13sysA", ["km", "g", "s"]], ["op", 1, "add", "foo", 2.0, "length", 0.0, 1],
                 ["newsys", 1, "c13sysB", ["kfoo", "kg", "s"]], ["fresh", 1, "mks"], ["op", 2, "has", "kfoo"], ["op", 0, "has", "kfoo"]])
     out.append([["defunit", 0, "c13unit", 3.0, "km", 1], ["fresh", 1, "mks"], ["op", 1, "has", "c13unit"], ["op", 0, "unit", "kc13unit"],
